@@ -67,7 +67,14 @@ ExpHeader(h, uoff, aoff, bodyLen) ==
      sig |-> IF HasTypeFields(h) THEN SigV ELSE <<>>,
      type_offset |-> IF HasTypeFields(h) THEN ZExt(TypeOffV(h), 8) ELSE <<>>,
      dwo_id |-> IF HasDwoId(h) THEN DwoV ELSE <<>>,
-     size_of_header |-> hs, header_size |-> hs, root_offset |-> hs]
+     size_of_header |-> hs, header_size |-> hs, root_offset |-> hs,
+     (* conversions of the root entry's unit offset (-1 = None) *)
+     unit_info_offset |-> IF h.ver < 5 /\ h.types THEN -1 ELSE uoff,
+     unit_types_offset |-> IF h.ver < 5 /\ h.types THEN uoff ELSE -1,
+     root_section_offset |-> uoff + hs,
+     root_info_offset |-> IF h.ver < 5 /\ h.types THEN -1 ELSE uoff + hs,
+     root_types_offset |-> IF h.ver < 5 /\ h.types THEN uoff + hs ELSE -1,
+     root_back |-> hs]
 
 (* ===================== forest ========================================== *)
 RECURSIVE NDepth(_, _)
